@@ -197,7 +197,8 @@ def check_determinism(b, rexpy, examples, o, size, seed, w):
     if not fixed:
         return
     perms = list(itertools.permutations(examples)) if len(examples) <= 4 else \
-        [tuple(reversed(examples)), tuple(sorted(examples))]
+        [tuple(reversed(examples)), tuple(sorted(examples)), tuple(sorted(examples, reverse=True)),
+         tuple(examples[len(examples) // 2:] + examples[:len(examples) // 2])]
     for p in perms[:24]:
         with quiet():
             ok, r = b.guarded('C14.extract.noraise', lambda: rexpy.extract(list(p), **kw), w)
@@ -275,6 +276,31 @@ def run_coverage_matrices(b):
                     b.check('C18.incremental.each-example-credited-once', okc, w, repr(dict(inc)))
 
 
+def run_coverage_literals(b):
+    """C18: anchored expressions that begin / end with an escaped metacharacter (a literal ^ or $)."""
+    from tdda.rexpy import rexpy
+    strings = ['a$', 'a$b', '^a', 'x^a', 'a', '10$', '10$/h', '$']
+    pats = [r'^a\$$', r'^\^a$', r'^a$', r'^[0-9]{2}\$$', r'^\$$', r'^a\$.*$']
+    for freqs in ([1] * len(strings), [2, 1, 3, 1, 1, 4, 2, 1]):
+        ex = rexpy.Examples(list(strings), list(freqs))
+        for k in range(1, len(pats) + 1):
+            for sel in itertools.combinations(pats, min(k, 2)):
+                for dedup in (False, True):
+                    w = {'patterns': list(sel), 'strings': strings, 'freqs': list(freqs), 'dedup': dedup}
+                    b.case(('literal-anchor', sel, tuple(freqs), dedup))
+                    ok, cov = b.guarded('C18.rex_coverage.noraise', lambda: rexpy.rex_coverage(list(sel), ex, dedup), w)
+                    if ok:
+                        want = [sum((1 if dedup else f) for s_, f in zip(strings, freqs) if matches_full(p, s_))
+                                for p in sel]
+                        b.check('C18.coverage-equals-true-match-counts', list(cov) == want, w, '%r vs %r' % (cov, want))
+    # through the Extractor: examples whose expression ends in a literal $, with longer examples next to them
+    for examples in (['10$', '20$', '30$', '10$/h', '20$/h', '15$/h', '7$/h'], {'a$': 2, 'b$': 1, 'a$x': 3, 'b$y': 1}):
+        for o in ({}, {'tag': True}):
+            w = {'examples': examples if isinstance(examples, dict) else list(examples), 'options': o, 'size_variant': 0}
+            b.case(('literal-anchor-extract', repr(examples), repr(o)))
+            check_extract(b, rexpy, examples, o, None, None, ('C18',), dict(w))
+
+
 def _work(args):
     chunk, props, seed = args
     from tdda.rexpy import rexpy
@@ -334,6 +360,13 @@ def gen_cases(props, tier, seed):
     for ex in regress:
         for sd in (3, 4, 8, 1, 2):
             cases.append((ex, 0, 1, sd))
+    # more same-shaped examples than max_strings_in_group (10), the odd one out last / first / in the middle:
+    # the order in which they arrive must not matter
+    many = ['AB-%d' % i for i in range(1, 12)]
+    for ex in (many + ['CD-12'], ['CD-12'] + many, many[:5] + ['CD-12'] + many[5:],
+               ['x%02d' % i for i in range(11)] + ['y11', 'x12']):
+        cases.append((ex, 0, 0, None))
+        cases.append((ex, 1, 0, None))
     # nothing to extract from (no example survives cleaning): early-return paths, also with a seed
     degenerate = [[], [''], ['', ' '], [' ']]
     base = degenerate + base
@@ -378,6 +411,7 @@ def run(props, tier, seed):
         run_pandas_forms(total)
     if 'C18' in props:
         run_coverage_matrices(total)
+        run_coverage_literals(total)
     return total
 
 
